@@ -285,6 +285,8 @@ class Model:
             r = 0
             for x in self.chain(d):
                 for i, fl in enumerate(x["fields"]):
+                    if x is not d and fl["kind"] in ("payload_field", "body_field"):
+                        continue   # an ancestor's payload is what holds the descendant's fields
                     s = self.static_bits_field(x, i, _depth + 1)
                     if s is None:
                         r = None
@@ -1074,6 +1076,7 @@ class Model:
 
         matched = []
         open_children = []
+        size_miss = False
         for cid, lst in cases.items():
             hit = False
             for cons, size in lst:
@@ -1085,11 +1088,7 @@ class Model:
                         open_children.append(cid)
                     continue
                 if sized and size != plen:
-                    # constraints match, the constant size does not: the property reads as
-                    # "error", the documented match-on-length as "None"
-                    outcomes.add(("none",))
-                    outcomes.add(("err",))
-                    widened = True
+                    size_miss = True
                     continue
                 hit = True
             if hit:
@@ -1097,6 +1096,12 @@ class Model:
         for cid in matched:
             try_child(cid)
         if len(matched) > 1:
+            widened = True
+        if not matched and size_miss:
+            # constraints match some child, no child's constant size does: the property reads as
+            # "error", the documented match-on-length as "None". (When a sibling matches on
+            # constraints *and* size there is nothing open: it is that child.)
+            outcomes.add(("err",))
             widened = True
         if not matched:
             outcomes.add(("none",))
